@@ -497,6 +497,16 @@ Corrupted records (TraceXFloat, POSTCONDITION Accepted false = rejected):
  A flipped low bit in `back' of a NaN, or a flipped byte of `xs', is (correctly) drift only.
 Coverage: XFloatSmall runs with -coverage 1; the check fails as machinery error if any of the 11 actions
  (4 Save branches, 5 Load branches, TakeApart, Reassemble) has taken = 0.
+After the last edits of the check (private build copies, smaller quick families) M2 and M3 were run again: still VIOLATION.
+`bin/verif replay C19 replays/C19/quick-0.json` (a -0.0 double recorded under M3) re-runs the pattern on the current tree:
+accepted, i.e. the unchanged tree keeps it.
+Thorough tier, unchanged tree, machine shared with four other builders (load average 150-300): held, 2617 s wall,
+55.8 CPU-minutes; TLC: XFloatSmall 142336, XFloatSF 506880, XFloatSFX 173424, XFloatDF 2523136, XFloatDFX 485104,
+BitFieldSmall 27072, BitFieldReal 87032, XFloatApaAgree 33790 distinct states, no violation; 61 traces (664620 events:
+483648 F, 151672 X, 28884 Lit over 10 configurations, 288 Sweep) accepted with 0 drift; all 2^32 singles and 2^29 random
+doubles compared in C with the identity (0 failures); Apalache: XFloatApaSF NoError (309 s; 32 s on a quiet machine),
+XFloatApaDF NoError (758 s; 77 s quiet) -- the identities hold for every single and every double pattern of the integer
+formulation, which TLC ties to the bit-level model on the scaled format (XFloatApaAgree).
 Model development notes: 0 drift on the unchanged tree over all enumerated/random/foreign events, i.e. the transcription
  reproduces class, sign, exponent, fraction bytes, portable bytes and loaded value of the real code everywhere it was tried.
 """
